@@ -43,6 +43,8 @@ def replace_dict(
 
             if ast.hash() in replacements:
                 repl = replacements[ast.hash()]
+                if isinstance(repl, Base) and getattr(repl, "length", None) != getattr(ast, "length", None):
+                    raise ClaripyReplacementError("replacements must have matching sizes")
 
             elif ast.variables >= variable_set:
                 if ast.is_leaf():
@@ -86,6 +88,8 @@ def _check_replaceability[T: Base](old: T, new: T) -> None:
         raise ClaripyReplacementError("replacements must be AST nodes")
     if type(old) is not type(new):
         raise ClaripyReplacementError(f"cannot replace type {type(old)} ast with type {type(new)} ast")
+    if getattr(old, "length", None) != getattr(new, "length", None):
+        raise ClaripyReplacementError("replacements must have matching sizes")
 
 
 def replace[T: Base](expr: Base, old: T, new: T) -> Base:
